@@ -45,7 +45,10 @@ Boundary == <<
   \* 17 unexported names everywhere
   << L("a", "int8"), EV("e1", << L("b", "string"), L("c", "int8") >>), L("d", "[3]int8"), L("e", "int16") >>,
   \* 18 the rest of the palette
-  << L("A", "[3]int8"), L("B", "any"), L("C", "bool"), L("D", "[]byte"), L("E", "[0]int64"), L("F", "*int"), L("G", "uint16"), L("H", "float64") >>
+  << L("A", "[3]int8"), L("B", "any"), L("C", "bool"), L("D", "[]byte"), L("E", "[0]int64"), L("F", "*int"), L("G", "uint16"), L("H", "float64") >>,
+  \* 19 a pointer-hidden first match whose as-coded offset coincides with a by-value field of the same name and type
+  \*    (found by TLC on the repaired derivation: accepting it is sound - the optic is on the outer f2)
+  << EP("E1", << L("F1", "int8"), L("f2", "int64") >>), L("f2", "int64") >>
 >>
 BoundarySet == {Boundary[i] : i \in 1..Len(Boundary)}
 ====
